@@ -6,7 +6,7 @@ exit 2  undecided (solver unknown/timeout, unsupported construct, vacuous family
 """
 import json, os, sys, time, traceback, multiprocessing, hashlib
 
-VERIF = '/verif'
+VERIF = os.path.dirname(os.path.dirname(os.path.abspath(__file__)))      # the directory this framework runs from (a snapshot under vp run)
 WORK = os.path.join(VERIF, '.work')
 
 
